@@ -6,6 +6,7 @@
 # Prints one summary line per step; exit 0 always (this is a lab tool, not a check).
 set -u
 export GOFLAGS=-mod=mod GOPROXY=off GOSUMDB=off GOTOOLCHAIN=local
+HERE="$(cd "$(dirname "${BASH_SOURCE[0]}")/.." && pwd)"
 DIR="$(cd "$1" && pwd)"; shift
 PATCH="$DIR/patch.diff"
 WT="${SEED_WT:-/tmp/seedverify}"
@@ -35,7 +36,7 @@ if [ -n "$(git -C /repo status --porcelain)" ]; then echo "SEED: /repo is not cl
 git -C /repo apply "$PATCH" || { echo "SEED: cannot apply to /repo"; exit 0; }
 for ID in "$@"; do
   s=$(date +%s)
-  OUT="$(cd /verif && VERIF_OUT=/tmp/seed-evidence ./check "$ID" "$TIER" 2>&1)"; RC=$?
+  OUT="$(cd "$HERE" && VERIF_OUT=/tmp/seed-evidence ./check "$ID" "$TIER" 2>&1)"; RC=$?
   e=$(date +%s)
   NV=$(echo "$OUT" | grep -c '^VIOLATION')
   KIND=$(echo "$OUT" | grep -m1 -E '^  [a-z0-9-]+:' | cut -c1-200)
